@@ -174,10 +174,10 @@ func checkC02(c *Check) {
 		c.floor("NewLocalSigner success returns", 1, len(ok))
 		c.mustPass(pg, "O-C02.6", "local signer: certificates given", "constructing a local signer", ok, A("-Empty(p0)"))
 		c.mustPass(pg, "O-C02.6", "local signer: leaf key supported", "constructing a local signer", ok, A("+IsNil("+ks+"#1)"))
-		c.mustPass(pg, "O-C02.6", "local signer: RSA leaf needs the matching RSA private key", "constructing a local signer", ok, AnyOf(A("-Eq(1, "+ks+"#0.Type)"), A("+KeyEq(&p1.(*crypto/rsa.PrivateKey).PublicKey, p0[0].PublicKey)")))
-		c.mustPass(pg, "O-C02.6", "local signer: EC leaf needs the matching ECDSA private key", "constructing a local signer", ok, AnyOf(A("+Eq(1, "+ks+"#0.Type)"), A("-Eq(2, "+ks+"#0.Type)"), A("+KeyEq(&p1.(*crypto/ecdsa.PrivateKey).PublicKey, p0[0].PublicKey)")))
+		c.mustPass(pg, "O-C02.6", "local signer: RSA leaf needs the matching RSA private key", "constructing a local signer", ok, AnyOf(A("-Eq(1, "+ks+"#0.Type)"), A("+KeyEq(&p1.(*crypto/rsa.PrivateKey).PublicKey, p0[0].PublicKey)"), A("+KeyEq(&p1.PublicKey, p0[0].PublicKey)")))
+		c.mustPass(pg, "O-C02.6", "local signer: EC leaf needs the matching ECDSA private key", "constructing a local signer", ok, AnyOf(A("+Eq(1, "+ks+"#0.Type)"), A("-Eq(2, "+ks+"#0.Type)"), A("+KeyEq(&p1.(*crypto/ecdsa.PrivateKey).PublicKey, p0[0].PublicKey)"), A("+KeyEq(&p1.PublicKey, p0[0].PublicKey)")))
 		c.mustPass(pg, "O-C02.6", "local signer: key type is RSA or EC", "constructing a local signer", ok, AnyOf(A("+Eq(1, "+ks+"#0.Type)"), A("+Eq(2, "+ks+"#0.Type)")))
-		c.mustPass(pg, "O-C02.6", "local signer: RSA private key type asserted", "constructing a local signer", ok, AnyOf(A("-Eq(1, "+ks+"#0.Type)"), A("+TypeIs(p1, *crypto/rsa.PrivateKey)")))
+		c.mustPass(pg, "O-C02.6", "local signer: RSA private key type asserted", "constructing a local signer", ok, AnyOf(A("-Eq(1, "+ks+"#0.Type)"), A("+Eq(2, "+ks+"#0.Type)"), A("+TypeIs(p1, *crypto/rsa.PrivateKey)")))
 		c.mustPass(pg, "O-C02.6", "local signer: ECDSA private key type asserted", "constructing a local signer", ok, AnyOf(A("+Eq(1, "+ks+"#0.Type)"), A("+TypeIs(p1, *crypto/ecdsa.PrivateKey)")))
 		good := len(ok) > 0
 		for _, s := range ok {
